@@ -104,6 +104,13 @@ mut("c20_webvtt_detect_startswith", "C20", "quiet", [("pycaption/webvtt.py", "  
     note="specificity: tightened sniffer; own output still starts with WEBVTT")
 mut("c20_detect_swallows_but_srt_first", "C20", "catch", [("pycaption/__init__.py", "    DFXPReader, MicroDVDReader, WebVTTReader, SAMIReader, SRTReader, SCCReader,", "    SRTReader, DFXPReader, MicroDVDReader, WebVTTReader, SAMIReader, SCCReader,")])
 
+mut("c20_microdvd_sniffer_memo_prefix", "C20", "catch", [("pycaption/microdvd.py", "class MicroDVDReader(BaseReader):\n    def detect(self, content):\n        return re.match(r\"{\\d+}{\\d+}\", content) is not None\n",
+    "class MicroDVDReader(BaseReader):\n    _sniffed = {}\n\n    def detect(self, content):\n        key = content[:6]\n        if key not in self._sniffed:\n            self._sniffed[key] = re.match(r\"{\\d+}{\\d+}\", content) is not None\n        return self._sniffed[key]\n")],
+    note="a class-level memo keyed on a prefix: the answer for a string depends on what was sniffed before (caught by sniffing every batch in both orders)")
+mut("c20_detect_full_content_memo", "C20", "quiet", [("pycaption/__init__.py", "def detect_format(caps):", "_DETECTED = {}\n\n\ndef detect_format(caps):"),
+    ("pycaption/__init__.py", "    for reader in SUPPORTED_READERS:\n        if reader().detect(caps):\n            return reader\n\n    return None", "    if caps in _DETECTED:\n        return _DETECTED[caps]\n    for reader in SUPPORTED_READERS:\n        if reader().detect(caps):\n            _DETECTED[caps] = reader\n            return reader\n\n    _DETECTED[caps] = None\n    return None")],
+    note="specificity: a memo keyed on the whole content never changes an answer")
+
 # ------------------------------------------------------------------- specificity (must stay quiet)
 mut("quiet_scc_reset_also_at_end", "C10", "quiet", [("pycaption/scc/__init__.py", "            fix_last_captions_without_ending(captions.get_captions(lang))\n\n        return captions", "            fix_last_captions_without_ending(captions.get_captions(lang))\n\n        self._reset_decoder_state()\n        return captions")])
 mut("quiet_error_messages_changed", "C10", "quiet", [("pycaption/srt.py", "raise CaptionReadNoCaptions(\"empty caption file\")", "raise CaptionReadNoCaptions(\"the SRT document holds no captions\")"),
